@@ -16,3 +16,21 @@ Definition stats_snapshot (c : config) (sched : list task) (leafname : nat) : op
 
 Definition leaf_injective (c : config) : Prop :=
   forall k1 k2, In k1 (concat (tasks c)) -> In k2 (concat (tasks c)) -> leaf c k1 = leaf c k2 -> k1 = k2.
+
+(* print_json "modules": for each module of the dump (its key), the stats fields looked up under the
+   leaf name of its code_file:  stats.get(name) -> (loaded_symbols, missing_symbols = had_stats && !loaded,
+   corrupt_symbols); no entry -> all false.  process_state.rs 1016-1062 *)
+Definition module_fields (st : option outcome) : bool * bool * bool :=
+  match st with
+  | Some o => (stat_loaded o, negb (stat_loaded o), stat_corrupt o)
+  | None => (false, false, false)
+  end.
+Definition render_modules (c : config) (sched : list task) (mods : list key) : list (bool * bool * bool) :=
+  map (fun k => module_fields (stats_snapshot c sched (leaf c k))) mods.
+(* what it must be: a function of the configuration alone *)
+Definition modules_spec (c : config) (mods : list key) : list (bool * bool * bool) :=
+  map (fun k => if in_dec Nat.eq_dec k (concat (tasks c)) then module_fields (Some (outc c k)) else
+                if existsb (fun k' => Nat.eqb (leaf c k') (leaf c k)) (concat (tasks c))
+                then module_fields (match find (fun k' => Nat.eqb (leaf c k') (leaf c k)) (concat (tasks c)) with
+                                    | Some k' => Some (outc c k') | None => None end)
+                else module_fields None) mods.
